@@ -325,6 +325,10 @@ func (w *idpWorld) do(r idpReq, kind string) string {
 	if rec.headers > 1 {
 		w.orc = append(w.orc, fmt.Sprintf("key=idpserver-two-replies step %d (%s) wrote %d status lines", w.n, kind, rec.headers))
 	}
+	// one well-formed reply: an error status carries an error text and nothing else; a page is one HTML document
+	if bs := rec.Body.String(); (rec.Code >= 400 && (strings.Contains(bs, "<form") || strings.Contains(bs, "<html"))) || strings.Count(bs, "<html") > 1 || strings.Count(bs, "</html>") > 1 {
+		w.orc = append(w.orc, fmt.Sprintf("key=idpserver-two-replies step %d (%s): status %d with a body that holds more than one reply (%d bytes: an error text and a page, or two pages)", w.n, kind, rec.Code, len(bs)))
+	}
 	if strings.Contains(rec.Body.String(), "hashed_password") || strings.Contains(rec.Body.String(), "$2a$") {
 		w.orc = append(w.orc, fmt.Sprintf("key=idpserver-hash-disclosed step %d (%s) discloses a password hash", w.n, kind))
 	}
@@ -733,6 +737,26 @@ func (c *Ctx) genC19() {
 			w.putUser("alice", "alice@example.com", "Alice A", []string{"staff"}, nil, nil) // no password in the body: the stored one stays
 			w.login("alice", "pw-b", true, "", nil)
 			pwBudget -= 6
+		}
+		if h == 4 {
+			// a store that fails at each single step of a request that arrives with a session cookie (and with a forged one):
+			// one reply per request, whatever fails — the session read, the user read, the shortcut read
+			w.putShortcut("sc1", entities[0], nil, false, false, nil)
+			first := w.login("alice", "pw-a", true, "", nil)
+			sid0 := ""
+			for sid, l := range w.sids {
+				if strings.HasSuffix(first, "/"+l) {
+					sid0 = sid
+				}
+			}
+			for _, sid := range []string{sid0, "forged-session-id"} {
+				for _, fs := range [][]string{{"e"}, {"k", "e"}, {"k", "k", "e"}, {"n"}, {"k", "n"}, {"e", "e"}} {
+					w.shortcut("sc1", "", sid, fs)
+					w.sso(entities[0], true, "", "", false, sid, "rs", fs)
+					w.login("", "", false, sid, fs)
+				}
+			}
+			pwBudget -= 1
 		}
 		if h == 3 {
 			w.registryMoveHistory(entities)
